@@ -170,7 +170,7 @@ def r2(ctx):
     n = 0
     bad = []
     for p, _ in cfg.paths():
-        if cfg.nodes[p[-1][0]].info != 'fall':
+        if cfg.nodes[p[-1][0]].info not in ('fall', 'break'):
             continue
         n += 1
         seen_guard = None
@@ -349,25 +349,29 @@ def r3(ctx):
     # the retry flag is cleared on every normal path through the try body, after the open
     tr = [t for t in walk_no_nested(f) if isinstance(t, ast.Try)][0]
     wl = [w for w in walk_no_nested(f) if isinstance(w, ast.While)]
-    okw = len(wl) == 1 and isinstance(wl[0].test, ast.Name)
+    # two spellings of the retry loop: `while flag:` with the flag cleared after the open, or `while True:` left by `break` after the open
+    okw = len(wl) == 1 and (isinstance(wl[0].test, ast.Name) or (isinstance(wl[0].test, ast.Constant) and wl[0].test.value is True))
     okf = False
     if okw:
-        flag = wl[0].test.id
+        flag = wl[0].test.id if isinstance(wl[0].test, ast.Name) else None
         tcfg = CFG(tr.body, exceptions=False)
         okf = True
         for p, _ in tcfg.paths():
-            if tcfg.nodes[p[-1][0]].info != 'fall':
+            term = tcfg.nodes[p[-1][0]].info
+            if term not in ('fall', 'break'):
                 continue
             last_open = last_clear = -1
             for k, (nid, _l) in enumerate(p):
                 nn = tcfg.nodes[nid]
                 if any((dotted(c.func) or '') in ('open', 'gzip.open') for c in node_calls(nn)):
                     last_open = k
-                if nn.kind == 'stmt' and isinstance(nn.ast, ast.Assign) and src(nn.ast) == f'{flag} = False':
+                if flag is not None and nn.kind == 'stmt' and isinstance(nn.ast, ast.Assign) and src(nn.ast) == f'{flag} = False':
                     last_clear = k
+            if flag is None:
+                last_clear = len(p) if term == 'break' else -1
             if not (last_open >= 0 and last_clear > last_open):
                 okf = False
-    ctx.emit('C19-R3', okf and okw, HANDLELIM, tr, 'retry loop runs until the open succeeded (flag cleared after the open on every normal path of the try body)', key='retry-flag', nontrivial=False)
+    ctx.emit('C19-R3', okf and okw, HANDLELIM, tr, 'retry loop runs until the open succeeded (left only after the open on every normal path of the try body)', key='retry-flag', nontrivial=False)
 
 
 @rule('C19', 'C19-R4', 'prune() and close() close a handle before they drop its entry; prune keeps the most recently written handles')
